@@ -94,6 +94,28 @@ def is_concrete(t):
     return isinstance(t, tuple) and t and t[0] in ("ctor", "struct", "lit", "tuple")
 
 
+def ctor_eq(a, b):
+    """Structural equality of constructor terms with literal leaves: True / False / None (not decidable)."""
+    if a[0] == "lit" and b[0] == "lit":
+        return a[1] == b[1]
+    if a[0] == "ctor" and b[0] == "ctor":
+        if not same_variant(a[1], b[1]):
+            return False
+        if len(a[2]) != len(b[2]):
+            return None
+        res = True
+        for x, y in zip(a[2], b[2]):
+            r = ctor_eq(x, y)
+            if r is False:
+                return False
+            if r is None:
+                res = None
+        return res
+    if a == b and is_concrete(a):
+        return True
+    return None
+
+
 def simplify(t, memo=None):
     if memo is None:
         memo = {}
@@ -177,6 +199,8 @@ def simplify(t, memo=None):
                 eq = a[1] == b[1]
             elif a[0] == "ctor" and b[0] == "ctor" and not same_variant(a[1], b[1]):
                 eq = False
+            elif a[0] == "ctor" and b[0] == "ctor":
+                eq = ctor_eq(a, b)
             if eq is not None:
                 r = TRUE if (eq == (op == "==")) else FALSE
         if r is None:
